@@ -164,25 +164,52 @@ func Equal(a, b Tree) bool {
 	return true
 }
 
-// GStr renders a Coq string: a literal when the bytes are printable ASCII, otherwise
-// `(bs [byte; ...])` (GConfJudge.bs).
+// GStr renders a Coq string.  Printable ASCII and bytes >= 0x80 go into a literal as they
+// are; tab, newline and carriage return become the constants c_tab / c_nl / c_cr, any other
+// control byte `bs [n]` (all defined in GConfJudge.v); pieces are joined with `cat [...]`.
 func GStr(s string) string {
-	plain := true
-	for i := 0; i < len(s); i++ {
-		if s[i] < 32 || s[i] > 126 {
-			plain = false
-			break
+	var pieces []string
+	cur := strings.Builder{}
+	flush := func() {
+		if cur.Len() > 0 {
+			pieces = append(pieces, lit(cur.String()))
+			cur.Reset()
 		}
 	}
-	if plain {
-		return gal.Str(s)
-	}
-	parts := make([]string, len(s))
 	for i := 0; i < len(s); i++ {
-		parts[i] = strconv.Itoa(int(s[i]))
+		c := s[i]
+		switch {
+		case c == '\t':
+			flush()
+			pieces = append(pieces, "c_tab")
+		case c == '\n':
+			flush()
+			pieces = append(pieces, "c_nl")
+		case c == '\r':
+			flush()
+			pieces = append(pieces, "c_cr")
+		case c < 32 || c == 127:
+			flush()
+			pieces = append(pieces, "bs ["+strconv.Itoa(int(c))+"]")
+		default:
+			cur.WriteByte(c)
+		}
 	}
-	return "(bs [" + strings.Join(parts, "; ") + "])"
+	flush()
+	switch len(pieces) {
+	case 0:
+		return lit("")
+	case 1:
+		if strings.HasPrefix(pieces[0], "\"") {
+			return pieces[0]
+		}
+		return "(" + pieces[0] + ")"
+	}
+	return "(cat [" + strings.Join(pieces, "; ") + "])"
 }
+
+// lit is a Coq string literal without scope delimiter (case files open string_scope).
+func lit(s string) string { return "\"" + strings.ReplaceAll(s, "\"", "\"\"") + "\"" }
 
 // GTree renders a tree as a Gallina term of GConfModel.tree.
 func GTree(t Tree) string {
